@@ -20,32 +20,57 @@ def _holds(c, a):
 
 
 def walk(rec, rng, steps=4000, noise=0.4):
-    """WalkSAT-like search. Returns (assignment list of bool, #violated)."""
+    """WalkSAT-like search with incremental bookkeeping. Returns (assignment list of bool, #violated)."""
     n = rec["nvars"]
     cs = _constraints(rec)
     a = [False] + [rng.random() < .5 for _ in range(n)]
-    best, bestv = list(a), len(cs) + 1
+    occ = [[] for _ in range(n + 1)]
+    for ci, (terms, op, deg) in enumerate(cs):
+        for co, l in terms:
+            if 1 <= abs(l) <= n:
+                occ[abs(l)].append(ci)
+    lhs = [sum(co for co, l in terms if 1 <= abs(l) <= n and (a[abs(l)] if l > 0 else not a[abs(l)]))
+           for terms, op, deg in cs]
+
+    def ok(ci):
+        return lhs[ci] >= cs[ci][2] if cs[ci][1] == ">=" else lhs[ci] == cs[ci][2]
+    viol = set(ci for ci in range(len(cs)) if not ok(ci))
+
+    def flip(v):
+        a[v] = not a[v]
+        for ci in occ[v]:
+            terms = cs[ci][0]
+            lhs[ci] = sum(co for co, l in terms if 1 <= abs(l) <= n and (a[abs(l)] if l > 0 else not a[abs(l)]))
+            if ok(ci):
+                viol.discard(ci)
+            else:
+                viol.add(ci)
+    best, bestv = list(a), len(viol)
+    budget = 400000
     for _ in range(steps):
-        viol = [c for c in cs if not _holds(c, a)]
-        if len(viol) < bestv:
-            best, bestv = list(a), len(viol)
-            if bestv == 0:
-                break
-        c = rng.choice(viol)
-        vs = [abs(l) for _, l in c[0]] or [rng.randint(1, n)] if n else []
-        if not vs:
+        if not viol or budget <= 0:
             break
+        ci = rng.choice(sorted(viol)) if len(viol) < 50 else next(iter(viol))
+        vs = [abs(l) for _, l in cs[ci][0] if 1 <= abs(l) <= n]
+        if not vs:
+            if n == 0:
+                break
+            vs = [rng.randint(1, n)]
         if rng.random() < noise:
             v = rng.choice(vs)
         else:
-            def cost(v):
-                a[v] = not a[v]
-                k = sum(1 for c2 in cs if not _holds(c2, a))
-                a[v] = not a[v]
-                return k
-            sample = vs if len(vs) <= 6 else rng.sample(vs, 6)
-            v = min(sample, key=cost)
-        a[v] = not a[v]
+            cand = vs if len(vs) <= 4 else rng.sample(vs, 4)
+            scores = []
+            for w in cand:
+                flip(w)
+                scores.append((len(viol), w))
+                flip(w)
+                budget -= 2 * sum(len(cs[c][0]) for c in occ[w])
+            v = min(scores)[1]
+        flip(v)
+        budget -= sum(len(cs[c][0]) for c in occ[v])
+        if len(viol) < bestv:
+            best, bestv = list(a), len(viol)
     return best, bestv
 
 
@@ -55,6 +80,7 @@ def propose(rec, rng, k):
         return [[]]
     out = []
     seen = set()
+    k = min(k, 2 ** min(n, 20))      # there are only 2^n assignments
 
     def push(a):
         t = tuple(a[1:])
@@ -77,7 +103,9 @@ def propose(rec, rng, k):
             for j in rng.sample(range(1, n + 1), min(2, n)):
                 b[j] = not b[j]
             push(b)
-    while len(out) < k:
+    attempts = 0
+    while len(out) < k and attempts < 50 * k:
+        attempts += 1
         dens = rng.choice((.1, .3, .5, .8))
         push([False] + [rng.random() < dens for _ in range(n)])
     return out
